@@ -1,6 +1,7 @@
 use crate::analysis::AvailableValue;
 use crate::cfg::Cfg;
-use crate::parser::{HasRegisterSets, Register};
+use crate::parser::{HasIdentity, HasRegisterSets, Register};
+use crate::passes::DiagnosticLocation;
 use crate::passes::{DiagnosticManager, LintError, LintPass};
 
 // Check if the values of callee-saved registers are restored to the original value at the end of the function
@@ -15,6 +16,8 @@ impl LintPass for CalleeSavedRegisterCheck {
                 funcs.push(func);
             }
         }
+        // An instruction in code that two functions share is reported once, not once per function
+        let mut reported = std::collections::BTreeSet::new();
         for func in &funcs {
             let exit_vals = func.exit().reg_values_in();
             for reg in &Register::callee_saved_set() {
@@ -30,9 +33,11 @@ impl LintPass for CalleeSavedRegisterCheck {
                         // This means that we are overwriting a callee-saved register
                         // We will traverse the function to find the first time
                         // from the return point that that register was overwritten.
-                        let ranges = Cfg::error_ranges_for_first_store(&func.exit(), reg);
-                        for range in ranges {
-                            errors.push(LintError::OverwriteCalleeSavedRegister(range));
+                        let ranges = Cfg::first_stores(&func.exit(), reg);
+                        for (writer, range) in ranges {
+                            if reported.insert((writer.node().id(), range.range())) {
+                                errors.push(LintError::OverwriteCalleeSavedRegister(range));
+                            }
                         }
                     }
                 }
